@@ -58,6 +58,7 @@ async fn sse_str() -> DataStream<&'static str> {
 }
 
 pub fn run_case(c: &Value) -> Value {
+    if c.get("timed").is_some() { return crate::c05::timed() }
     pin_clock(PINNED_CLOCK);
     *SCHED.lock().unwrap() = c["sched"].as_array().unwrap().iter().map(|s| (
         s["pushes"].as_array().unwrap().iter().map(|p| string(unhex(p.as_str().unwrap()))).collect(), s["ready"].as_bool().unwrap())).collect();
